@@ -29,7 +29,7 @@ cd /repo; [ -z "$(git status --porcelain)" ] || { echo "repo dirty"; exit 3; }
 git apply $out/patch.diff || { echo "patch does not apply to /repo"; exit 3; }
 res=""
 for id in "$@"; do
-  cd /verif; o=$(./check $id $tier 2>&1); rc=$?
+  cd /verif; o=$(timeout 1800 ./check $id $tier 2>&1); rc=$?
   echo "$o" | grep -E "^(VIOLATION|INCONCLUSIVE)" | head -2 | cut -c1-220
   echo "$o" | tail -1 | cut -c1-200
   res="$res $id:$tier:exit$rc"
